@@ -115,6 +115,7 @@ pub fn run(case: &Case) -> Vec<Violation> {
     let paths = [dir.join("watched_dir"), dir.join("watched_file")];
     let mut ring = talloc::track(|| Ring::config().with_submission_queue_size(4).build().expect("ring"));
     let sq = ring.sq();
+    crate::mapwatch::fake_inotify(true);
     let mut watcher = talloc::track(|| Watcher::new(sq.clone()).expect("watcher"));
     talloc::track(|| {
         watcher.watch_directory(paths[0].clone(), Interest::ALL, Recursive::No).expect("watch dir");
